@@ -46,7 +46,7 @@ ASSUMPTIONS = [
 CASE_TIMEOUT_S = 120
 STEP_BUDGET = 100000000
 
-N_RANDOM = {"quick": 32000, "thorough": 1000000}
+N_RANDOM = {"quick": 32000, "thorough": 640000}
 N_SHARDS = {"quick": 16, "thorough": 64}
 
 _MON = {"guard": None}
@@ -399,7 +399,7 @@ def floor(agg, tier):
     c = agg["counters"]
     miss = []
     q = tier == "quick"
-    need = 12000 if q else 300000
+    need = 12000 if q else 250000
     if c.get("parsed_to_completion", 0) < need:
         miss.append("fewer than %d candidates parsed to completion (%d)" % (need, c.get("parsed_to_completion", 0)))
     if c.get("not_parsed", 0) < (2000 if q else 100000):
